@@ -23,9 +23,32 @@ PROPS = {
                     "StorageManager::get is external (assumed to return the stored record)"],
         "assumed": ["residual seen by reading: get_child_node maps NotFound to 'no child', so a reader overtaken during a request can still assemble a non-verifying proof (outside this contract)"],
     },
+    "C18": {
+        "verus": ["encoding_lemmas", ("verify_base", ["verify_label", "NodeLabel.new"])],
+        "kani": ["c18"],
+        "scope": "partial (everything except the curve arithmetic): verify_label accepts iff key and proof parse, the VRF accepts the proof for the hash input of (label, freshness, version) "
+                 "and the claimed node label equals the truncated VRF output with length 256 (Verus, unbounded); the hash input is be64(|label|) || label || [freshness] || be64(version) "
+                 "(Kani on the real functions with a recording hash stub, both configurations; BOUNDED in the label length, full-domain otherwise) and that encoding is injective "
+                 "(Verus lemma, unbounded); leaf-hash and commitment-nonce pre-images (nonce contains the key-derived commitment key); output truncation = first 32 bytes. "
+                 "VRF completeness, uniqueness and key separation are cryptographic assumptions.",
+        "trusted": ["everything in ecvrf_impl.rs (prove/verify/evaluate, proof (de)serialisation) and the hash functions themselves (blake3)",
+                    "u64::to_be_bytes is the big-endian byte string (be64)"],
+        "assumed": [],
+    },
+    "C19": {
+        "kani": ["c19"],
+        "scope": "partial (label / digest / direction codecs and component round trips, Kani on the compiled crate): minimal-label encode/decode round trip for all 2^256 values; "
+                 "NodeLabel, AzksElement, SiblingProof -> proto -> back is the identity; over-long label value, label_len > 256, missing fields and wrong-size digests are rejected "
+                 "without panic; the direction field decodes only to 0/1 after masking. Whole-proof round trips (Vec-of-Vec) and wire-level parsing (protobuf crate) are not decided.",
+        "trusted": ["the protobuf crate (wire parsing, never panics on arbitrary bytes)", "alloc::fmt::format stubbed in the harnesses (error message text is irrelevant to the contracts)",
+                    "overlay akd_core/Cargo.toml: default features += protobuf, whatsapp_v1 (cargo kani applies --features workspace-wide)"],
+        "assumed": [],
+    },
     "C09": {
         "verus": ["auditor"],
         "search": True,
+        "bounded_search": [{"obligation": "auditor/ensure_prefix_free#E_prefix_free",
+                            "bound": "all sets of <= 3 labels of <= 3 bits (thorough: 4 bits), each with and without stray bits beyond the length; accepted <==> pairwise prefix-free"}],
         "always_search": True,
         "scope": "auditor side: audit_verify Ok ==> |epochs|+1 = |hashes|, |epochs| = |proofs| and every transition i was accepted for (hashes[i], hashes[i+1], epochs[i]+1); a transition is "
                  "accepted only if both reconstructed node sets are prefix-free (no shadowed / duplicated / overlapping subtree) and the reconstructed root hashes equal the given ones "
